@@ -21,7 +21,7 @@ package core
 //@   ensures[C20] err == nil ==> protocol == PROTOCOL_IBC || protocol == PROTOCOL_CCTP || protocol == PROTOCOL_HYPERLANE || protocol == PROTOCOL_INTERNAL
 
 //@ func (i CrossChainID) ID() (s)
-//@   ensures[C20,C12,C13,C17,C17c] i.ProtocolId >= 0 ==> s == idstr(i.ProtocolId, i.CounterpartyId)
+//@   ensures[C20,C12,C13,C17,C17c,C17p] i.ProtocolId >= 0 ==> s == idstr(i.ProtocolId, i.CounterpartyId)
 
 // The textual form parses back to the pair it was made from, whenever that pair is a valid identifier.
 // "Valid" is the verdict of CrossChainID.Validate itself: vcc(x) names that verdict as a function of
